@@ -330,6 +330,73 @@ def every_constructor(chk: Check) -> None:
                                   got=repr(getattr(obj, opt)), expected=repr(want)))
 
 
+def special_histories(chk: Check):
+    """histories the random programs reach only by luck, run on the real module with the property monitored directly:
+    contexts that request exactly the values already in force (or nothing at all) around a body that changes the
+    configuration, and options whose values are mutable / stateful objects (identity must survive a context)"""
+    import numpy as np
+    import tea_tasting as tt
+    import tea_tasting.config as cfg
+    saved = dict(cfg._global_config)
+
+    def snapshot():
+        return {k: (pv(v), id(v)) for k, v in tt.get_config().items()}
+
+    def run(label, enter_kw, body):
+        before = snapshot()
+        try:
+            with tt.config_context(**enter_kw()):
+                body()
+        except Boom:
+            pass
+        except Exception as ex:  # noqa: BLE001
+            chk.fail("config_context raised on a valid history", dict(history=label, error=repr(ex)))
+        after = snapshot()
+        chk.case(("special-history", label))
+        chk.branch("special:" + label.split(":")[0])
+        if {k: v[0] for k, v in after.items()} != {k: v[0] for k, v in before.items()}:
+            chk.fail("after leaving config_context the configuration is not what it was before",
+                     dict(history=label, before={k: v[0] for k, v in before.items()},
+                          after={k: v[0] for k, v in after.items()}))
+        elif any(after[k][1] != before[k][1] for k in before if not before[k][0].startswith(("F", "I", "B", "S", "N"))):
+            chk.fail("after leaving config_context an option no longer holds the OBJECT it held before (a copy was "
+                     "installed): for a stateful value - a random generator, a list that is extended later - the "
+                     "configuration is not what it was", dict(history=label, options=[k for k in before if after[k][1] != before[k][1]]))
+
+    def change():
+        tt.set_config(equal_var=True, alpha=0.2, my_option="changed")
+
+    def change_and_raise():
+        change()
+        raise Boom
+    try:
+        for body_name, body in (("set_config in the body", change), ("set_config then raise", change_and_raise)):
+            run(f"same-values:{body_name}", lambda: {"alpha": tt.get_config("alpha")}, body)
+            run(f"empty-context:{body_name}", dict, body)
+            run(f"same-values-all:{body_name}", lambda: {k: tt.get_config(k) for k in ("alpha", "power", "use_t")}, body)
+
+            def nested():
+                with tt.config_context(confidence_level=0.9):      # the same value as the enclosing context
+                    body()
+            run(f"nested-same-value:{body_name}", lambda: {"confidence_level": 0.9}, nested)
+        # mutable / stateful option values
+        rng_obj, lst, dct = np.random.default_rng(5), [1, 2], {"a": 1}
+        tt.set_config(my_rng=rng_obj, my_list=lst, my_dict=dct, n_obs=(100, 200))
+        run("objects:plain context", lambda: {"alpha": 0.1}, lambda: None)
+        run("objects:body changes another option", lambda: {"alpha": 0.1}, change)
+        run("objects:context sets an object option", lambda: {"my_list": [9]}, lambda: None)
+        if tt.get_config("my_rng") is not rng_obj or tt.get_config("my_list") is not lst:
+            chk.fail("an option no longer holds the object it was given (after contexts were entered and left)",
+                     dict(option="my_rng / my_list"))
+        got = tt.get_config()
+        got["alpha"] = 0.77
+        if tt.get_config("alpha") == 0.77:
+            chk.fail("get_config() hands out the live configuration, not a copy", {})
+    finally:
+        cfg._global_config.clear()
+        cfg._global_config.update(saved)
+
+
 def main():
     chk = Check(PROP)
     chk.trusted = common.BASE_TRUST + [
@@ -348,6 +415,7 @@ def main():
             common.use_snapshot()
             common.lake_build(["TeaTasting.Model.Config", "TeaTasting.Driver.PyWire"])
     every_constructor(chk)
+    special_histories(chk)
     if chk.tier == "quick":
         run_histories(chk, 120, 3, 8)
     else:
